@@ -280,6 +280,125 @@ def r18_5(prog, rep):
                  "not a whole number of seconds loses its remainder (1500 ms prints as PT1S and reads back as 1000; 500 ms prints as the malformed `PT`)" % (c, val))
 
 
+def r18_6(prog, rep, rid="R18.6"):
+    """dur-date = dur-day [dur-time], dur-time = "T" ...: the time designators H/M/S are read only after the `T` that introduces them
+    has been consumed.  In idiff_strp() that means: from every case of the date-part dispatch other than `T` (W, D) control comes back
+    to that dispatch before it can reach the time-part dispatch — otherwise `P1DT2H`, the form idiff_strf() prints for anything beyond a
+    day, stops at the T and the whole value is refused by the callers."""
+    from ..q import forward_scan
+    f = prog.fn("idiff_strp", "dt-strpf.c")
+    cfg = f.cfg
+    sw = _switches(f)
+    date_sw = [s_ for s_ in sw if ord("D") in s_[1] and ord("T") in s_[1]]
+    time_sw = [s_ for s_ in sw if ord("H") in s_[1] and ord("S") in s_[1]]
+    if not (date_sw and time_sw):
+        raise AnalysisBroken("idiff_strp: date/time dispatch not found")
+    db, dcases = date_sw[0]
+    tb = time_sw[0][0]
+    n = 0
+    for ch, blk in sorted(dcases.items(), key=str):
+        if ch in ("default", ord("T")):
+            continue
+        n += 1
+        hits, _ = forward_scan(cfg, (blk, -1), lambda b_, i_, x_: "stop" if b_ == db else ("hit" if b_ == tb else None))
+        direct = bool(hits) or (tb in cfg.reach_from(blk) and db not in cfg.reach_from(blk))
+        # reachability on the block level (blocks without elements are not visited by the element scan)
+        seen, work, bad = set(), [blk], False
+        while work:
+            b_ = work.pop()
+            if b_ in seen or b_ == db:
+                continue
+            seen.add(b_)
+            if b_ == tb:
+                bad = True
+                break
+            work.extend(cfg.blocks[b_].live_succs())
+        key = "idiff_strp/%s-returns-to-date-dispatch" % chr(ch)
+        if bad:
+            rep.fail(rid, key, f.loc(cfg.blocks[blk].elems[0].get("line") if cfg.blocks[blk].elems else None),
+                     "after a `%s` designator the parser can fall into the time part without the `T` having been read: `P1DT2H` — what the printer "
+                     "writes for a day and two hours — stops at the T" % chr(ch))
+        else:
+            rep.ok(rid, key, f.loc(), "after `%s` the next designator is read by the date dispatch again (a following T is consumed there)" % chr(ch))
+    if n < 2:
+        rep.broken_("rule=%s expected the W and D cases of the date dispatch, found %d" % (rid, n))
+
+
+def r18_7(prog, rep, rid="R18.7"):
+    """dur-hour = 1*DIGIT "H" ...: a count of zero is a count.  Whether a designator is read must not depend on the value of the count
+    in front of it — in idiff_strp() no branch on the accumulator may lead past the dispatch that reads the designator (`PT1H0M30S`
+    and `PT1H30S` are the same duration)."""
+    f = prog.fn("idiff_strp", "dt-strpf.c")
+    cfg = f.cfg
+    sw = [s_ for s_ in _switches(f) if (ord("D") in s_[1] and ord("T") in s_[1]) or (ord("H") in s_[1] and ord("S") in s_[1])]
+    if len(sw) < 2:
+        raise AnalysisBroken("idiff_strp: date/time dispatch not found")
+    swb = {b for b, _ in sw}
+    # the accumulators: what the case bodies add to the result
+    acc = set()
+    for b, i, x, line in cfg.all_elems():
+        if isinstance(x, dict):
+            for l, kind, nn in writes(x):
+                if kind == "compound" and nn.get("op") == "+=":
+                    for q in walk(cfg.resolve(nn["r"])):
+                        if q.get("k") == "ref" and q.get("dk") == "local":
+                            acc.add(q["n"])
+    resets = {}
+    for b, i, x, line in cfg.all_elems():
+        if isinstance(x, dict):
+            for l, kind, nn in writes(x):
+                if lv(l) in acc and kind == "assign" and int_value(strip_casts(cfg.resolve(nn["r"]))) == 0:
+                    resets.setdefault(lv(l), []).append(b)
+    acc = {a for a in acc if a in resets}
+    if not acc:
+        raise AnalysisBroken("idiff_strp: the count accumulator (reset to 0, added into the result) was not found")
+
+    def escapes(b0, S):
+        seen, work = set(), [b0]
+        while work:
+            b_ = work.pop()
+            if b_ in seen or b_ == S:
+                continue
+            seen.add(b_)
+            if b_ == cfg.exit:
+                return True
+            work.extend(cfg.blocks[b_].live_succs())
+        return False
+    n = 0
+    for S, cases in sw:
+        # blocks from which S is the next dispatch
+        region, work = set(), [p_ for p_ in cfg.blocks if S in cfg.blocks[p_].live_succs()]
+        while work:
+            b_ = work.pop()
+            if b_ in region or b_ in swb:
+                continue
+            region.add(b_)
+            work.extend(p_ for p_ in cfg.blocks if b_ in cfg.blocks[p_].live_succs())
+        n += 1
+        what = "date" if ord("D") in cases else "time"
+        key = "idiff_strp/%s-designator-read-whatever-the-count" % what
+        bad = None
+        for b_ in sorted(region):
+            c = cfg.cond(b_)
+            if c is None:
+                continue
+            names = {q["n"] for q in walk(f.expand(c)) if q.get("k") == "ref"}
+            if not (names & acc):
+                continue
+            # the accumulation loop itself (a digit test feeding the accumulator) never names the accumulator in its condition
+            if any(escapes(s_, S) for s_ in cfg.blocks[b_].live_succs()):
+                bad = (b_, c)
+                break
+        if bad:
+            ln = cfg.blocks[bad[0]].elems[-1].get("line")
+            rep.fail(rid, key, f.loc(ln), "the branch on `%s` decides whether the %s designator behind the count is read at all: a count with that value "
+                     "(an explicit 0, as in PT1H0M30S) ends the parse and the rest of the duration is dropped — equivalent spellings read as different values" % (show(bad[1])[:40], what))
+        else:
+            rep.ok(rid, key, f.loc(), "no branch on the count (%s) lies between its reset and the %s dispatch" % (", ".join(sorted(acc)), what))
+    if n < 2:
+        rep.broken_("rule=%s expected the date and the time dispatch, found %d" % (rid, n))
+
+
 def run(prog, rep, tier, snap):
     rep.rule("R18.1", "64-bit accumulation in the duration parser", 2)
     rep.call(r18_1, prog, rep)
@@ -287,6 +406,10 @@ def run(prog, rep, tier, snap):
     rep.call(r18_2, prog, rep)
     rep.rule("R18.3", "unit letters and multipliers agree between idiff_strf and idiff_strp", 8)
     rep.call(r18_3, prog, rep)
+    rep.rule("R18.6", "time designators are read only behind their T", 2)
+    rep.call(r18_6, prog, rep)
+    rep.rule("R18.7", "a count's value does not decide whether its designator is read", 2)
+    rep.call(r18_7, prog, rep)
     rep.rule("R18.5", "the duration printer does not drop what is left below its smallest unit", 1)
     rep.call(r18_5, prog, rep)
     rep.rule("R18.4", "the instant parser's default window covers the printers' longest output", 2)
